@@ -831,6 +831,9 @@ pub struct Dfs {
     pub preempt_bound: Option<usize>,
     last_tid: Option<usize>,
     preemptions: usize,
+    /// replay mode: follow this schedule (then the first enabled transition),
+    /// explore nothing else
+    pub forced: Option<Vec<(usize, String)>>,
 }
 
 #[derive(Clone, Copy, Debug, PartialEq, Eq)]
@@ -858,7 +861,15 @@ impl Dfs {
             preempt_bound: None,
             last_tid: None,
             preemptions: 0,
+            forced: None,
         }
+    }
+
+    /// A Dfs that executes exactly one recorded schedule.
+    pub fn replaying(schedule: Vec<(usize, String)>, max_faults: usize, fault_policy: FaultPolicy) -> Self {
+        let mut d = Dfs::new(max_faults, fault_policy);
+        d.forced = Some(schedule);
+        d
     }
 
     pub fn begin_execution(&mut self) {
@@ -884,6 +895,9 @@ impl Dfs {
             self.stats.complete += 1;
         }
         self.stats.max_steps = self.stats.max_steps.max(self.stack.len());
+        if self.forced.is_some() {
+            return false;
+        }
         while let Some(top) = self.stack.last_mut() {
             let cur = top.chosen;
             top.done.push(cur);
@@ -954,6 +968,25 @@ impl Chooser for Dfs {
                 return None;
             }
             idx = f.chosen;
+        } else if let Some(f) = &self.forced {
+            let i = match f.get(step) {
+                Some((t, l)) => match cur.iter().position(|c| c.0 == *t && &c.1 == l) {
+                    Some(i) => i,
+                    None => {
+                        self.divergence = Some(format!(
+                            "recorded step {} ({}:{}) is not enabled on this tree; enabled: {:?}",
+                            step,
+                            t,
+                            l,
+                            cur.iter().map(|x| (x.0, x.1.clone())).collect::<Vec<_>>()
+                        ));
+                        return None;
+                    }
+                },
+                None => 0,
+            };
+            self.stack.push(Frame { enabled: cur.clone(), chosen: i, sleep: vec![], done: vec![] });
+            idx = i;
         } else {
             // new node: inherit the sleep set from the parent
             let sleep: Vec<(usize, String)> = match self.stack.last() {
